@@ -277,6 +277,33 @@ pub unsafe extern "C" fn openat64(dirfd: c_int, path: *const std::os::raw::c_cha
     sim_open(dirfd as c_long, path, flags, mode)
 }
 
+/// The working directory (`std::env::current_dir`): for simulated caller threads one of three
+/// directories, chosen by the environment epoch (a change might make relative output file names
+/// absolute at compile time).
+#[no_mangle]
+pub unsafe extern "C" fn getcwd(buf: *mut std::os::raw::c_char, size: usize) -> *mut std::os::raw::c_char {
+    let env = active();
+    if !env.is_null() && !buf.is_null() {
+        let mut st = (*env).lock().unwrap_or_else(|e| e.into_inner());
+        st.env_reads_total += 1;
+        st.env_names.insert("<getcwd>".into());
+        let dirs: [&[u8]; 3] = [b"/sim/home/user\0", b"/sim/scratch/job-17\0", b"/\0"];
+        let d = dirs[(crate::rng::mix(&[0xCDu64, st.env_seed, st.env_epoch]) % 3) as usize];
+        if d.len() > size {
+            *__errno_location() = 34; // ERANGE
+            return std::ptr::null_mut();
+        }
+        std::ptr::copy_nonoverlapping(d.as_ptr(), buf as *mut u8, d.len());
+        return buf;
+    }
+    let r = syscall(79, buf, size as c_long);
+    if r < 0 {
+        *__errno_location() = (-r) as c_int;
+        return std::ptr::null_mut();
+    }
+    buf
+}
+
 /// Fifth seam: the CPU set of the calling thread (`std::thread::available_parallelism`, which a
 /// change might use as a default thread count). For simulated caller threads the mask holds
 /// 1..=16 CPUs as a function of the environment epoch.
